@@ -10,8 +10,9 @@ from pipeline import Pipeline, Gen
 import verifkit as vk
 
 
-def G(funds=(2, 1, 0)):
-    return {"act": "Genesis", "args": {"funds": list(funds)}}
+def G(funds=(2, 1, 0), subs=(1, 2), nmeta=1):
+    """subs: class of the literal string behind each sub-denom slot (see TokenFactoryGen), nmeta: native denom has bank metadata"""
+    return {"act": "Genesis", "args": {"funds": list(funds), "subs": list(subs), "nmeta": nmeta}}
 
 
 def S(act, who, c=0, s=0, amt=0, new=0, as_=None):
@@ -25,6 +26,9 @@ class C16(Pipeline):
           ("TokenFactory_mc", "TokenFactory_mc_deep", ("thorough",))]
     gens = [Gen("TokenFactoryGen", "TokenFactoryGen_cover", "bfs", tiers=("quick",), timeout=300),
             Gen("TokenFactoryGen", "TokenFactoryGen_cover_big", "bfs", tiers=("thorough",), timeout=1200),
+            # hostile sub-denomination strings ('..', './', '//', trailing '/', empty), genesis without native metadata
+            Gen("TokenFactoryGen", "TokenFactoryGen_subs_cover", "bfs", tiers=("quick",), timeout=300),
+            Gen("TokenFactoryGen", "TokenFactoryGen_subs_cover_big", "bfs", tiers=("thorough",), timeout=1200),
             Gen("TokenFactoryGen", "TokenFactoryGen_sim", "simulate", num=400, depth=14, tiers=("quick",), timeout=300),
             Gen("TokenFactoryGen", "TokenFactoryGen_sim", "simulate", num=2000, depth=14, tiers=("thorough",), timeout=1200)]
     driver_pkg = "drivers/tokenfactory"
@@ -37,13 +41,23 @@ class C16(Pipeline):
         "message fields: Paloma's tokenfactory messages have no mint-to / burn-from field; the module mints to, burns from, charges and authorises Metadata.Creator, so attempts 'naming another address' set Metadata.Creator to an account that is not the signer (rejected by the ante chain unless a fee grant exists)",
         "no fee grants exist between the tracked accounts (x/paloma's VerifyAuthorisedSignatureDecorator lets a grantee act for the granter; that delegation is property C03's subject)",
         "the denom creation fee is the production default (params.DenomCreationFee = 10 GRAIN, paid by the creator into the community pool); it is modelled, not configured away: accounts are funded with whole multiples of the fee",
-        "genesis set-up: x/mint inflation is set to zero so that the native supply is exactly observable; the native denom ugrain carries bank metadata (the definition of app.BankModule, as on the live chain)",
+        "genesis set-up: x/mint inflation is set to zero so that the native supply is exactly observable; histories run on both genesis variants: the native denom ugrain with bank metadata (the definition of app.BankModule, as on the live chain) and without (what app.DefaultGenesis produces)",
+        "sub-denominations: the model's sub-denom slots are bound per history to literal strings of hostile but valid classes (plain, with '/', '..' segments climbing 1/2/3 levels, './' prefix, '//' inside, trailing '/', empty); a factory denom is observed under the literal name factory/<creator>/<sub-denom as given>, and every other name appearing in the module's creator index, its authority records, bank metadata or bank supply is counted (C16.NoForeignDenoms); sub-denoms longer than the 44 byte limit and non-ASCII strings are not tried",
         "amounts are small integers (TLC); sdk.Int arithmetic of x/bank is not re-verified here",
     ]
 
     def extra_histories(self, tier):
         d11 = dict(c=1, s=1)
-        return [
+        d12 = dict(c=1, s=2)
+        # the whole life cycle on every hostile class (slot 1) next to the class a cleaning join would merge it with (slot 2)
+        life = []
+        for subs in ((7, 1), (9, 1), (8, 3), (4, 1), (5, 1), (6, 1), (10, 1), (3, 1), (1, 7), (1, 9), (3, 8), (5, 4), (10, 6)):
+            for nmeta in (0, 1):
+                life.append([G(subs=subs, nmeta=nmeta), S("Create", 1, s=1), S("Create", 1, s=2), S("Create", 1, s=1),
+                             S("Mint", 1, amt=2, **d11), S("Mint", 1, amt=1, **d12), S("Burn", 1, amt=1, **d11), S("Mint", 2, amt=1, **d11),
+                             S("SetMetadata", 1, **d11), S("ChangeAdmin", 1, new=2, **d11), S("Mint", 2, amt=1, **d11), S("Burn", 1, amt=1, **d11),
+                             S("Mint", 1, amt=1, c=0, s=1), S("Burn", 1, amt=1, c=0, s=1), S("SetMetadata", 2, **d11), S("Burn", 1, amt=1, **d12)])
+        return life + [
             # admin hand-over, then the old admin acting, then the new admin burning what it does not own
             [G(), S("Create", 1, s=1), S("Mint", 1, amt=2, **d11), S("ChangeAdmin", 1, new=2, **d11), S("Mint", 1, amt=1, **d11),
              S("Burn", 1, amt=1, **d11), S("Burn", 2, amt=1, **d11), S("Mint", 2, amt=1, **d11), S("Burn", 2, amt=1, **d11),
